@@ -10,6 +10,9 @@ demo=$(ls tests/demo_${ID}*.rs bevy/tests/demo_${ID}*.rs 2>/dev/null | head -1)
 [ -n "$demo" ] || { echo "$ID: no demo file"; exit 7; }
 case $demo in bevy/*) pkg="-p bevy_mina";; *) pkg="-p mina";; esac
 tname=$(basename $demo .rs)
+# a target dir shared between worktrees keys its fingerprints on workspace-relative paths and mtimes: touch the
+# sources so that nothing built from another worktree is taken for fresh
+find core macros src bevy/src -name "*.rs" -exec touch {} +
 git apply --check $P || { echo "$ID: patch does not apply"; exit 6; }
 if cargo test --offline $pkg --test $tname >$W/out/confirm_without.log 2>&1; then wo=pass; else wo=FAIL; fi
 git apply $P
